@@ -26,7 +26,8 @@ for d in "${DIFFS[@]}"; do
   else t=tests-skipped; fi
   out=$(cd /verif && VERIF_REPO="$WT" ./check $ID --tier $TIER 2>&1); rc=$?
   git -C /repo worktree remove --force "$WT"; rm -rf "$WT"
-  echo "== $d (on $base): $t check-exit=$rc"
+  capped=""; echo "$out" | grep -q "exhaustive=false" && capped=" CAPPED(exhaustive=false: the run met its deadline and did not check everything)"
+  echo "== $d (on $base): $t check-exit=$rc$capped"
   echo "$out" | grep -E "VIOLATION|class=|MACHINERY" | head -6
 done
 git -C /repo worktree prune
